@@ -83,6 +83,8 @@ pub enum FlatOpKind {
     Freeze,
     /// JSON that is not a variant of ExecuteMsg
     Raw(String),
+    /// rewrite the stored cw2 record to (name or the contract's own, version), then migrate_contract
+    Migrate { name: Option<String>, version: String },
 }
 #[derive(Clone, Debug, Serialize, Deserialize, PartialEq, Eq, PartialOrd, Ord)]
 pub enum FlatOp {
@@ -95,6 +97,7 @@ pub enum TieredOpKind {
     UpdateAdmins(Vec<String>),
     Freeze,
     Raw(String),
+    Migrate { name: Option<String>, version: String },
 }
 #[derive(Clone, Debug, Serialize, Deserialize, PartialEq, Eq, PartialOrd, Ord)]
 pub enum TieredOp {
@@ -112,12 +115,16 @@ pub enum Case {
     FlatRootQuery { root: String, label: String, member: String, proof: Vec<String> },
     /// HasMember on tiered-whitelist-merkletree: one list per stage, `nroots` of the roots stored
     TieredQuery { lists: Vec<Members>, stages: Vec<StageSpec>, nroots: usize, #[serde(default)] spelling: u8, at: u64, label: String, member: String, proof: Vec<String> },
-    FlatHist { now: u64, init: FlatInit, ops: Vec<FlatOp> },
-    TieredHist { now: u64, init: TieredInit, ops: Vec<TieredOp> },
+    /// `members`: the list whose tree root `init.root` is; when given, after every Execute / Migrate
+    /// step every entry's own proof must still be accepted and outsiders rejected
+    FlatHist { now: u64, init: FlatInit, ops: Vec<FlatOp>, #[serde(default)] members: Option<Members> },
+    /// `lists`: one list per stored root (same role as `members`)
+    TieredHist { now: u64, init: TieredInit, ops: Vec<TieredOp>, #[serde(default)] lists: Vec<Members> },
     Leaf { stage: Option<u32>, sender: String, alloc: Option<u32> },
     /// a factory-created Merkle vending minter (variant 4 / 5 of w_sale) with a Merkle whitelist
     /// (flat or one-stage tiered) over `entries`; `sender` mints presenting entry `proof_of`'s proof
-    Mint { variant: usize, tiered: bool, entries: Vec<(Option<u32>, String, Option<u32>)>, sender: String, stage: Option<u32>, alloc: Option<u32>, proof_of: usize, label: String },
+    /// `migrate_from`: before the mint, whitelist and minter are migrated by their wasm admin from this stored version
+    Mint { variant: usize, tiered: bool, entries: Vec<(Option<u32>, String, Option<u32>)>, sender: String, stage: Option<u32>, alloc: Option<u32>, proof_of: usize, label: String, #[serde(default)] migrate_from: Option<String> },
 }
 
 fn kind(c: &Case) -> &'static str {
@@ -382,7 +389,8 @@ fn run_case(w: &mut World, c: &Case) -> Outcome {
             hist.push(format!("tiered:{}:{}", label.split('@').next().unwrap_or(label), res_tag(&r)));
             Outcome { coq, viol, nontrivial: wf && r.is_ok(), hist, observed: format!("{:?}", r), steps: 1 }
         }
-        Case::FlatHist { now, init, ops } => {
+        Case::FlatHist { now, init, ops, members } => {
+            let swept: Option<Built> = members.as_ref().map(|m| build_tree(false, &m.list(), None));
             let mut addrs = addr_ids();
             let mut denoms = denom_ids();
             let mut app = fresh_app();
@@ -402,6 +410,37 @@ fn run_case(w: &mut World, c: &Case) -> Outcome {
                 for op in ops {
                     steps += 1;
                     match op {
+                        FlatOp::Exec { now, sender, kind: FlatOpKind::Migrate { name, version } } => {
+                            chain::set_time(&mut app, *now);
+                            crate::w_migrate::set_cw2(&mut app, addr, name.as_deref().unwrap_or(FLAT_CW2), version);
+                            let before = chain::storage_digest(&app, addr);
+                            let r = match catch(|| app.migrate_contract(Addr::unchecked(sender.as_str()), addr.clone(), &cosmwasm_std::Empty {}, code)) {
+                                Ok(Ok(_)) => Ok(()),
+                                Ok(Err(e)) => Err(format!("{:#}", e)),
+                                Err(p) => Err(p),
+                            };
+                            any_ok |= r.is_ok();
+                            let root = query_root_flat(&app, addr).unwrap_or_default();
+                            let what = format!("migrate from ({}, {}) by {} ({})", name.as_deref().unwrap_or("own name"), version, sender, if r.is_ok() { "ok" } else { "err" });
+                            if root != init.root {
+                                viol.push(("C14:flat-root-changed".to_string(), format!("MerkleRoot was {} and is {} after {}", init.root, root, what)));
+                            }
+                            if r.is_err() && chain::storage_digest(&app, addr) != before {
+                                viol.push(("C14:flat-rejected-call-wrote".to_string(), format!("{} was rejected but storage changed", what)));
+                            }
+                            if let Some(b) = &swept {
+                                steps += sweep_flat(&app, addr, b, &what, &mut viol);
+                            }
+                            hist.push(format!("flat:migrate:{}", if r.is_ok() { "ok" } else { "err" }));
+                            coq_ops.push(format!(
+                                "WMigrate {} {} {} {} {}",
+                                coq_bool(sender == CREATOR),
+                                coq_bool(name.is_none()),
+                                coq_version(version),
+                                coq_bool(r.is_ok()),
+                                coq_str(&root)
+                            ));
+                        }
                         FlatOp::Exec { now, sender, kind } => {
                             chain::set_time(&mut app, *now);
                             let before = chain::storage_digest(&app, addr);
@@ -431,6 +470,7 @@ fn run_case(w: &mut World, c: &Case) -> Outcome {
                                     let v: serde_json::Value = serde_json::from_str(j).expect("raw json");
                                     (chain::exec(&mut app, sender, addr, &v, &[]), "not-an-execute-msg", None)
                                 }
+                                FlatOpKind::Migrate { .. } => unreachable!(),
                             };
                             any_ok |= r.is_ok();
                             let root = query_root_flat(&app, addr).unwrap_or_default();
@@ -442,6 +482,9 @@ fn run_case(w: &mut World, c: &Case) -> Outcome {
                             }
                             if r.is_err() && chain::storage_digest(&app, addr) != before {
                                 viol.push(("C14:flat-rejected-call-wrote".to_string(), format!("{} by {} was rejected but storage changed", tag, sender)));
+                            }
+                            if let Some(b) = &swept {
+                                steps += sweep_flat(&app, addr, b, &format!("{} by {}", tag, sender), &mut viol);
                             }
                             hist.push(format!("flat:{}:{}", tag, if r.is_ok() { "ok" } else { "err" }));
                             coq_ops.push(match coqm {
@@ -490,7 +533,8 @@ fn run_case(w: &mut World, c: &Case) -> Outcome {
             );
             Outcome { coq, viol, nontrivial: inst.is_ok() && (any_ok || ops.is_empty()), hist, observed: format!("instantiate {:?}", inst.as_ref().map(|a| a.to_string())), steps }
         }
-        Case::TieredHist { now, init, ops } => {
+        Case::TieredHist { now, init, ops, lists } => {
+            let swept: Vec<Built> = lists.iter().map(|m| build_tree(true, &m.list(), None)).collect();
             let mut addrs = addr_ids();
             let mut denoms = denom_ids();
             let mut app = fresh_app();
@@ -510,6 +554,38 @@ fn run_case(w: &mut World, c: &Case) -> Outcome {
                 for op in ops {
                     steps += 1;
                     match op {
+                        TieredOp::Exec { now, sender, kind: TieredOpKind::Migrate { name, version } } => {
+                            chain::set_time(&mut app, *now);
+                            let specs_before = stored_specs(&app, addr).ok();
+                            crate::w_migrate::set_cw2(&mut app, addr, name.as_deref().unwrap_or(TIERED_CW2), version);
+                            let before = chain::storage_digest(&app, addr);
+                            let r = match catch(|| app.migrate_contract(Addr::unchecked(sender.as_str()), addr.clone(), &cosmwasm_std::Empty {}, code)) {
+                                Ok(Ok(_)) => Ok(()),
+                                Ok(Err(e)) => Err(format!("{:#}", e)),
+                                Err(p) => Err(p),
+                            };
+                            any_ok |= r.is_ok();
+                            let roots = query_roots_tiered(&app, addr).unwrap_or_default();
+                            let what = format!("migrate from ({}, {}) by {} ({})", name.as_deref().unwrap_or("own name"), version, sender, if r.is_ok() { "ok" } else { "err" });
+                            if roots != init.roots {
+                                viol.push(("C14:tiered-root-changed".to_string(), format!("MerkleRoots were {:?} and are {:?} after {}", init.roots, roots, what)));
+                            }
+                            if r.is_err() && chain::storage_digest(&app, addr) != before {
+                                viol.push(("C14:tiered-rejected-call-wrote".to_string(), format!("{} was rejected but storage changed", what)));
+                            }
+                            if !swept.is_empty() {
+                                steps += sweep_tiered(&mut app, addr, &swept, specs_before, &what, &mut viol);
+                            }
+                            hist.push(format!("tiered:migrate:{}", if r.is_ok() { "ok" } else { "err" }));
+                            coq_ops.push(format!(
+                                "TMigrate {} {} {} {} {}",
+                                coq_bool(sender == CREATOR),
+                                coq_bool(name.is_none()),
+                                coq_version(version),
+                                coq_bool(r.is_ok()),
+                                coq_strs(&roots)
+                            ));
+                        }
                         TieredOp::Exec { now, sender, kind } => {
                             chain::set_time(&mut app, *now);
                             let before = chain::storage_digest(&app, addr);
@@ -555,6 +631,7 @@ fn run_case(w: &mut World, c: &Case) -> Outcome {
                                     let v: serde_json::Value = serde_json::from_str(j).expect("raw json");
                                     (chain::exec(&mut app, sender, addr, &v, &[]), "not-an-execute-msg", None)
                                 }
+                                TieredOpKind::Migrate { .. } => unreachable!(),
                             };
                             any_ok |= r.is_ok();
                             let roots = query_roots_tiered(&app, addr).unwrap_or_default();
@@ -566,6 +643,9 @@ fn run_case(w: &mut World, c: &Case) -> Outcome {
                             }
                             if r.is_err() && chain::storage_digest(&app, addr) != before {
                                 viol.push(("C14:tiered-rejected-call-wrote".to_string(), format!("{} by {} was rejected but storage changed", tag, sender)));
+                            }
+                            if !swept.is_empty() {
+                                steps += sweep_tiered(&mut app, addr, &swept, None, &format!("{} by {}", tag, sender), &mut viol);
                             }
                             hist.push(format!("tiered:{}:{}", tag, if r.is_ok() { "ok" } else { "err" }));
                             coq_ops.push(match coqm {
@@ -613,7 +693,7 @@ fn run_case(w: &mut World, c: &Case) -> Outcome {
             );
             Outcome { coq, viol, nontrivial: inst.is_ok() && (any_ok || ops.is_empty()), hist, observed: format!("instantiate {:?}", inst.as_ref().map(|a| a.to_string())), steps }
         }
-        Case::Mint { variant, tiered, entries, sender, stage, alloc, proof_of, label } => {
+        Case::Mint { variant, tiered, entries, sender, stage, alloc, proof_of, label, migrate_from } => {
             use crate::w_sale::{SaleCfg, SaleWorld, WlKind};
             let mut cfg = SaleCfg::basic(*variant);
             cfg.wl = WlKind::None;
@@ -633,9 +713,38 @@ fn run_case(w: &mut World, c: &Case) -> Outcome {
                 json!({"merkle_root": b.root_hex(), "merkle_tree_uri": null, "start_time": ws.to_string(), "end_time": we.to_string(),
                        "mint_price": price, "per_address_limit": wl_limit, "admins": [CREATOR], "admins_mutable": true})
             };
-            let wl = sw.make_whitelist_raw(if *tiered { "tiered-merkle" } else { "merkle" }, &msg, FEE).expect("merkle whitelist");
+            // instantiated directly (not through make_whitelist_raw) so that it has a wasm admin
+            let wl_code = sw.wl_code[if *tiered { "tiered-merkle" } else { "merkle" }];
+            let wl = sw
+                .app
+                .instantiate_contract(wl_code, Addr::unchecked(CREATOR), &msg, &[coin(FEE, NATIVE)], "wl", Some(CREATOR.to_string()))
+                .expect("merkle whitelist");
             let minter = sw.minter.clone();
             chain::exec(&mut sw.app, CREATOR, &minter, &json!({"set_whitelist": {"whitelist": wl.to_string()}}), &[]).expect("set_whitelist");
+            let mut steps = 3;
+            if let Some(from) = migrate_from {
+                // the whitelist, then the minter, upgraded by their wasm admin from an older release
+                crate::w_migrate::set_cw2(&mut sw.app, &wl, if *tiered { TIERED_CW2 } else { FLAT_CW2 }, from);
+                let r1 = catch(|| sw.app.migrate_contract(Addr::unchecked(CREATOR), wl.clone(), &cosmwasm_std::Empty {}, wl_code));
+                let (mname, _) = crate::w_migrate::get_cw2(&sw.app, &minter);
+                let mcode = sw.app.contract_data(&minter).map(|d| d.code_id).unwrap_or(0);
+                crate::w_migrate::set_cw2(&mut sw.app, &minter, &mname, from);
+                let r2 = catch(|| sw.app.migrate_contract(Addr::unchecked(CREATOR), minter.clone(), &cosmwasm_std::Empty {}, mcode));
+                steps += 2;
+                hist.push(format!("minter{}:whitelist-migrate:{}", variant, if matches!(r1, Ok(Ok(_))) { "ok" } else { "err" }));
+                hist.push(format!("minter{}:minter-migrate:{}", variant, if matches!(r2, Ok(Ok(_))) { "ok" } else { "err" }));
+                let root_now = if *tiered {
+                    query_roots_tiered(&sw.app, &wl).unwrap_or_default().first().cloned().unwrap_or_default()
+                } else {
+                    query_root_flat(&sw.app, &wl).unwrap_or_default()
+                };
+                if root_now != b.root_hex() {
+                    viol.push((
+                        if *tiered { "C14:tiered-root-changed" } else { "C14:flat-root-changed" }.to_string(),
+                        format!("the minter's whitelist reported root {} and reports {} after migrate from {}", b.root_hex(), root_now, from),
+                    ));
+                }
+            }
             chain::set_time(&mut sw.app, (ws + we) / 2);
             chain::mint_coins(&mut sw.app, sender, 1_000_000, NATIVE);
             let proof = b.proof_hex(*proof_of);
@@ -671,7 +780,7 @@ fn run_case(w: &mut World, c: &Case) -> Outcome {
                 coq_bool(r.is_ok())
             );
             hist.push(format!("minter{}:{}:{}:{}", variant, if *tiered { "tiered" } else { "flat" }, label, if r.is_ok() { "ok" } else { "err" }));
-            Outcome { coq, viol, nontrivial: true, hist, observed: format!("{:?}", r.as_ref().map(|_| "minted").map_err(|e| e.chars().take(160).collect::<String>())), steps: 3 }
+            Outcome { coq, viol, nontrivial: true, hist, observed: format!("{:?}", r.as_ref().map(|_| "minted").map_err(|e| e.chars().take(160).collect::<String>())), steps }
         }
         Case::Leaf { stage, sender, alloc } => {
             let s = leaf_string(*stage, sender, *alloc);
@@ -686,6 +795,102 @@ fn run_case(w: &mut World, c: &Case) -> Outcome {
             Outcome { coq, viol, nontrivial: stage.is_some() || alloc.is_some(), hist, observed: s, steps: 1 }
         }
     }
+}
+pub const FLAT_CW2: &str = "crates.io:whitelist-merkletree";
+pub const TIERED_CW2: &str = "crates.io:tiered-whitelist-merkletree";
+/// MAJOR.MINOR.PATCH as the model's `option version`; anything else (does not parse, or has a
+/// pre-release / build part, which the generators never produce) is None
+fn coq_version(v: &str) -> String {
+    match semver::Version::parse(v) {
+        Ok(x) if x.pre.is_empty() && x.build.is_empty() => format!("(Some ({}, {}, {}))", x.major, x.minor, x.patch),
+        _ => "None".to_string(),
+    }
+}
+/// after a step of a whitelist-merkletree history: every entry with its own proof accepted,
+/// outsiders (with a member's proof, with none) not accepted
+fn sweep_flat(app: &App, addr: &Addr, b: &Built, after: &str, viol: &mut Vec<(String, String)>) -> u64 {
+    let mut n = 0;
+    for i in 0..b.members.len() {
+        n += 1;
+        let r = has_member(app, addr, false, &b.members[i], &b.proof_hex(i));
+        if r != Ok(true) {
+            viol.push(("C14:flat-member-rejected".to_string(), format!("after {}: listed entry {} with its own proof answers {:?}", after, b.members[i], r)));
+            break;
+        }
+    }
+    let outsider = stars_addr(999_999, 77);
+    for p in [b.proof_hex(0), vec![], b.proof_hex(b.members.len() - 1)] {
+        n += 1;
+        if has_member(app, addr, false, &outsider, &p) == Ok(true) {
+            viol.push(("C14:flat-nonmember-accepted".to_string(), format!("after {}: unlisted string accepted", after)));
+            break;
+        }
+    }
+    n
+}
+/// the same for the tiered contract: in the middle of every stage the contract currently
+/// stores, the entries of that stage's list are accepted with their own
+/// proofs, outsiders and entries of other stages' lists are not
+/// the stage windows as stored now (raw CONFIG item: the Stages query indexes the roots and
+/// panics when there are fewer roots than stages)
+fn stored_specs(app: &App, addr: &Addr) -> Result<Vec<StageSpec>, String> {
+    tiered_whitelist_merkletree::state::CONFIG
+        .load(&*app.contract_storage(addr))
+        .map(|c| {
+            c.stages
+                .iter()
+                .map(|s| StageSpec { start: s.start_time.nanos(), end: s.end_time.nanos(), denom: s.mint_price.denom.clone(), limit: s.per_address_limit })
+                .collect()
+        })
+        .map_err(|e| e.to_string())
+}
+/// `expect`: the windows that must be in force (after a migrate: the ones stored before it,
+/// a migrate may not change the schedule); None: the ones stored now (after an Execute)
+fn sweep_tiered(app: &mut App, addr: &Addr, built: &[Built], expect: Option<Vec<StageSpec>>, after: &str, viol: &mut Vec<(String, String)>) -> u64 {
+    let mut n = 1;
+    let specs = match expect.map(Ok).unwrap_or_else(|| stored_specs(app, addr)) {
+        Ok(s) => s,
+        Err(e) => {
+            viol.push(("C14:tiered-root-changed".to_string(), format!("after {}: the stored config does not load: {}", after, e)));
+            return n;
+        }
+    };
+    let outsider = stars_addr(999_999, 77);
+    let saved = chain::now(app);
+    for (i, sp) in specs.iter().enumerate() {
+        if i >= built.len() || sp.end < sp.start + 2 {
+            continue;
+        }
+        let t = (sp.start + sp.end) / 2;
+        if active_by_text(&specs, t) != Ok(Some(i)) {
+            continue;
+        }
+        chain::set_time(app, t);
+        let b = &built[i];
+        for k in 0..b.members.len() {
+            n += 1;
+            let r = has_member(app, addr, true, &b.members[k], &b.proof_hex(k));
+            if r != Ok(true) {
+                viol.push(("C14:tiered-member-rejected".to_string(), format!("after {}: entry {} of the active stage {} with its own proof answers {:?}", after, b.members[k], i, r)));
+                break;
+            }
+        }
+        let mut foreign: Vec<(String, Vec<String>)> = vec![(outsider.clone(), b.proof_hex(0)), (outsider.clone(), vec![])];
+        for (j, o) in built.iter().enumerate() {
+            if j != i && !b.members.contains(&o.members[0]) {
+                foreign.push((o.members[0].clone(), o.proof_hex(0)));
+            }
+        }
+        for (m, p) in foreign {
+            n += 1;
+            if has_member(app, addr, true, &m, &p) == Ok(true) {
+                viol.push(("C14:tiered-nonmember-accepted".to_string(), format!("after {}: {} is not listed in the active stage {} and is accepted", after, m, i)));
+                break;
+            }
+        }
+    }
+    chain::set_time(app, saved);
+    n
 }
 fn res_tag(r: &Result<bool, String>) -> &'static str {
     match r {
@@ -1071,7 +1276,7 @@ fn gen_cases(a: &Args) -> Vec<Case> {
                 (Some(1), a[4].clone(), Some(0)),
             ];
             let mut push = |label: &str, sender: &str, stage: Option<u32>, alloc: Option<u32>, proof_of: usize| {
-                cases.push(Case::Mint { variant, tiered, entries: entries.clone(), sender: sender.to_string(), stage, alloc, proof_of, label: label.to_string() });
+                cases.push(Case::Mint { variant, tiered, entries: entries.clone(), sender: sender.to_string(), stage, alloc, proof_of, label: label.to_string(), migrate_from: None });
             };
             for (i, (st, ad, al)) in entries.iter().enumerate() {
                 push("own", ad, *st, *al, i);
@@ -1089,6 +1294,15 @@ fn gen_cases(a: &Args) -> Vec<Case> {
             push("A-swaps-stage-and-allocation", &a[0], Some(3), Some(1), 0);
             // right entry, another entry's proof
             push("own-entry-other-proof", &a[1], None, Some(10), 2);
+            // the same questions after whitelist and minter were migrated from older releases
+            for (from, picks) in [("3.0.0", vec![0usize, 1, 2, 3]), ("3.9.0", vec![1])] {
+                for i in picks {
+                    let (st, ad, al) = entries[i].clone();
+                    cases.push(Case::Mint { variant, tiered, entries: entries.clone(), sender: ad, stage: st, alloc: al, proof_of: i, label: "own".into(), migrate_from: Some(from.to_string()) });
+                }
+                cases.push(Case::Mint { variant, tiered, entries: entries.clone(), sender: a[1].clone(), stage: Some(1), alloc: Some(3), proof_of: 0, label: "proof-of-A-presented-by-B".into(), migrate_from: Some(from.to_string()) });
+                cases.push(Case::Mint { variant, tiered, entries: entries.clone(), sender: out.clone(), stage: None, alloc: None, proof_of: 3, label: "proof-of-A-presented-by-outsider".into(), migrate_from: Some(from.to_string()) });
+            }
         }
     }
     // the stated assumption of leaf_binds_sender (equal address lengths) is needed: with the
@@ -1097,7 +1311,7 @@ fn gen_cases(a: &Args) -> Vec<Case> {
     cases.push(Case::Mint {
         variant: 4, tiered: false,
         entries: vec![(None, "buyer1".into(), Some(15)), (None, "buyer2".into(), Some(1))],
-        sender: "buyer11".into(), stage: None, alloc: Some(5), proof_of: 0, label: "caveat-different-length-address".into(),
+        sender: "buyer11".into(), stage: None, alloc: Some(5), proof_of: 0, label: "caveat-different-length-address".into(), migrate_from: None,
     });
 
     // ---- instantiate probes and execute histories
@@ -1106,6 +1320,47 @@ fn gen_cases(a: &Args) -> Vec<Case> {
     cases
 }
 
+/// stored (cw2 name, version) pairs for the migrate grid, derived from what the contract itself
+/// stores at instantiate: old releases, current-1 patch, current (all accepted from the wasm
+/// admin), then current+1 patch, next major, garbage, and a foreign name (all refused)
+fn migrate_grid(current: &str) -> Vec<(Option<String>, String)> {
+    let cur = semver::Version::parse(current).expect("contract version");
+    let prev = if cur.patch > 0 {
+        format!("{}.{}.{}", cur.major, cur.minor, cur.patch - 1)
+    } else if cur.minor > 0 {
+        format!("{}.{}.{}", cur.major, cur.minor - 1, 99)
+    } else {
+        format!("{}.{}.{}", cur.major.saturating_sub(1), 99, 99)
+    };
+    let mut v: Vec<(Option<String>, String)> = vec![];
+    for ver in ["0.1.0".to_string(), "3.0.0".into(), "3.9.0".into(), prev, current.to_string(),
+                format!("{}.{}.{}", cur.major, cur.minor, cur.patch + 1), format!("{}.{}.{}", cur.major, cur.minor + 1, 0),
+                format!("{}.0.0", cur.major + 1), "garbage".into(), format!("{}.{}", cur.major, cur.minor), String::new()] {
+        v.push((None, ver));
+    }
+    for ver in ["3.0.0".to_string(), current.to_string()] {
+        v.push((Some("crates.io:sg-whitelist".to_string()), ver.clone()));
+        v.push((Some("crates.io:whitelist-merkletree-x".to_string()), ver));
+    }
+    v
+}
+fn stored_version(tiered: bool) -> String {
+    let mut app = fresh_app();
+    let addr = if tiered {
+        let code = app.store_code(chain::tiered_whitelist_merkletree());
+        let b = build_tree(true, &["x".to_string()], None);
+        let s0 = BASE + 1000 * SEC;
+        instantiate_tiered(&mut app, code, &TieredInit {
+            roots: vec![b.root_hex()], uris: None, stages: vec![StageSpec { start: s0, end: s0 + SEC, denom: NATIVE.into(), limit: 1 }],
+            admins: vec![CREATOR.into()], mutable: true, funds: vec![(NATIVE.to_string(), FEE)],
+        }).expect("tiered instantiate")
+    } else {
+        let code = app.store_code(chain::whitelist_merkletree());
+        let b = build_tree(false, &["x".to_string()], None);
+        instantiate_flat(&mut app, code, &flat_default(&b.root_hex(), BASE)).expect("flat instantiate")
+    };
+    crate::w_migrate::get_cw2(&app, &addr).1
+}
 fn raw_update_flat(root: &str) -> String {
     json!({"update_merkle_tree": {"merkle_root": root, "merkle_tree_uri": null}}).to_string()
 }
@@ -1146,30 +1401,30 @@ fn flat_hist_cases(a: &Args, rng: &mut Rng) -> Vec<Case> {
     inits.push((BASE, FlatInit { admins: vec!["x".into()], ..d.clone() }));
     inits.push((BASE, FlatInit { admins: vec![], mutable: false, ..d.clone() }));
     for (now, init) in inits {
-        v.push(Case::FlatHist { now, init, ops: vec![q(0)] });
+        v.push(Case::FlatHist { members: None, now, init, ops: vec![q(0)] });
     }
     // guard-boundary probes of every Execute message, every sender role
     let two_admins = FlatInit { admins: vec![CREATOR.into(), ADMIN2.into()], ..d.clone() };
     for sender in [CREATOR, ADMIN2, STRANGER] {
         let ex = |now: u64, kind: FlatOpKind| FlatOp::Exec { now, sender: sender.to_string(), kind };
         for now in [d.start - 1, d.start, d.start + 1] {
-            v.push(Case::FlatHist { now: BASE, init: two_admins.clone(), ops: vec![ex(now, FlatOpKind::UpdateStart(d.start + 5)), q(1)] });
-            v.push(Case::FlatHist { now: BASE, init: two_admins.clone(), ops: vec![ex(now, FlatOpKind::UpdateEnd(d.end + 5)), ex(now, FlatOpKind::UpdateEnd(d.end)), q(1)] });
+            v.push(Case::FlatHist { members: None, now: BASE, init: two_admins.clone(), ops: vec![ex(now, FlatOpKind::UpdateStart(d.start + 5)), q(1)] });
+            v.push(Case::FlatHist { members: None, now: BASE, init: two_admins.clone(), ops: vec![ex(now, FlatOpKind::UpdateEnd(d.end + 5)), ex(now, FlatOpKind::UpdateEnd(d.end)), q(1)] });
         }
         for t in [d.end - 1, d.end, d.end + 1, chain::GENESIS_NS - 1, chain::GENESIS_NS, 0] {
-            v.push(Case::FlatHist { now: BASE, init: two_admins.clone(), ops: vec![ex(BASE + 5, FlatOpKind::UpdateStart(t)), q(2)] });
+            v.push(Case::FlatHist { members: None, now: BASE, init: two_admins.clone(), ops: vec![ex(BASE + 5, FlatOpKind::UpdateStart(t)), q(2)] });
         }
         for t in [d.start - 1, d.start, d.start + 1, d.end - 1, d.end + 1] {
-            v.push(Case::FlatHist { now: BASE, init: two_admins.clone(), ops: vec![ex(BASE + 5, FlatOpKind::UpdateEnd(t)), ex(d.start + 1, FlatOpKind::UpdateEnd(t)), q(2)] });
+            v.push(Case::FlatHist { members: None, now: BASE, init: two_admins.clone(), ops: vec![ex(BASE + 5, FlatOpKind::UpdateEnd(t)), ex(d.start + 1, FlatOpKind::UpdateEnd(t)), q(2)] });
         }
-        v.push(Case::FlatHist {
+        v.push(Case::FlatHist { members: None,
             now: BASE, init: two_admins.clone(),
             ops: vec![ex(BASE + 1, FlatOpKind::UpdateAdmins(vec![STRANGER.into()])), ex(BASE + 2, FlatOpKind::Freeze), ex(BASE + 3, FlatOpKind::UpdateAdmins(vec![CREATOR.into()])), ex(BASE + 4, FlatOpKind::Freeze), q(3)],
         });
-        v.push(Case::FlatHist { now: BASE, init: two_admins.clone(), ops: vec![ex(BASE + 1, FlatOpKind::UpdateAdmins(vec!["x".into()])), ex(BASE + 1, FlatOpKind::UpdateAdmins(vec![])), q(3)] });
+        v.push(Case::FlatHist { members: None, now: BASE, init: two_admins.clone(), ops: vec![ex(BASE + 1, FlatOpKind::UpdateAdmins(vec!["x".into()])), ex(BASE + 1, FlatOpKind::UpdateAdmins(vec![])), q(3)] });
         // the handler that exists but is not dispatched, under the conditions it would accept
         for now in [BASE + 1, d.start + 1, d.end - 1, d.end, d.end + 1] {
-            v.push(Case::FlatHist {
+            v.push(Case::FlatHist { members: None,
                 now: BASE, init: two_admins.clone(),
                 ops: vec![
                     ex(now, FlatOpKind::Raw(raw_update_flat(&other_root))),
@@ -1177,6 +1432,40 @@ fn flat_hist_cases(a: &Args, rng: &mut Rng) -> Vec<Case> {
                     ex(now, FlatOpKind::Raw(json!({"update_merkle_tree": [other_root, null]}).to_string())),
                     q(4),
                     FlatOp::Query { member: "evil".into(), proof: vec![] },
+                ],
+            });
+        }
+    }
+    // migrate: every stored (name, version) pair of the grid, from the wasm admin (CREATOR),
+    // a contract-level admin that is not the wasm admin (ADMIN2) and a stranger; before the
+    // window, inside it and after it; followed by ordinary calls and another migrate
+    let cur = stored_version(false);
+    let grid = migrate_grid(&cur);
+    for (gi, (name, ver)) in grid.iter().enumerate() {
+        for (si, sender) in [CREATOR, ADMIN2, STRANGER].into_iter().enumerate() {
+            let t = [BASE + 5, d.start + 5, d.end + 5][(gi + si) % 3];
+            let mg = |now: u64, who: &str, name: &Option<String>, ver: &str| FlatOp::Exec { now, sender: who.to_string(), kind: FlatOpKind::Migrate { name: name.clone(), version: ver.to_string() } };
+            v.push(Case::FlatHist { members: None,
+                now: BASE, init: two_admins.clone(),
+                ops: vec![
+                    q(gi % 6), mg(t, sender, name, ver), q(gi % 6), q((gi + 1) % 6),
+                    FlatOp::Query { member: ms[0].clone(), proof: b.proof_hex(1) },
+                    FlatOp::Exec { now: t + 1, sender: CREATOR.into(), kind: FlatOpKind::UpdateEnd(d.end + 100) },
+                    mg(t + 2, CREATOR, &None, "3.0.0"), q(5),
+                    FlatOp::Exec { now: t + 3, sender: CREATOR.into(), kind: FlatOpKind::Raw(raw_update_flat(&other_root)) },
+                ],
+            });
+        }
+    }
+    // the same upgrade over a root stored in upper / mixed case: the stored string itself stays
+    for mode in [1u8, 2] {
+        let init = FlatInit { root: spell(&root, mode), ..two_admins.clone() };
+        for ver in ["3.0.0".to_string(), "3.9.0".into(), cur.clone()] {
+            v.push(Case::FlatHist { members: None,
+                now: BASE, init: init.clone(),
+                ops: vec![
+                    q(1), FlatOp::Exec { now: BASE + 5, sender: CREATOR.into(), kind: FlatOpKind::Migrate { name: None, version: ver.clone() } }, q(1), q(4),
+                    FlatOp::Exec { now: BASE + 6, sender: STRANGER.into(), kind: FlatOpKind::Migrate { name: None, version: ver } }, q(2),
                 ],
             });
         }
@@ -1198,12 +1487,16 @@ fn flat_hist_cases(a: &Args, rng: &mut Rng) -> Vec<Case> {
             };
             let sender = if rng.chance(3, 4) { *rng.pick(&[CREATOR, ADMIN2]) } else { STRANGER };
             let around = |rng: &mut Rng, x: u64| x + rng.below(5) - 2;
-            let kind = match rng.below(12) {
+            let kind = match rng.below(13) {
                 0 | 1 | 2 => { let t = if rng.chance(1, 2) { around(rng, en) } else { around(rng, now + 10 * SEC) }; FlatOpKind::UpdateStart(t) }
                 3 | 4 | 5 => { let t = if rng.chance(1, 2) { around(rng, st) } else { around(rng, en + 10 * SEC) }; FlatOpKind::UpdateEnd(t) }
                 6 | 7 => FlatOpKind::UpdateAdmins(if rng.chance(1, 5) { vec!["x".into()] } else { vec![CREATOR.into(), rng.pick(&[ADMIN2, STRANGER]).to_string()] }),
                 8 => FlatOpKind::Freeze,
                 9 => FlatOpKind::Raw(raw_update_flat(&other_root)),
+                10 => {
+                    let (name, ver) = rng.pick(&grid).clone();
+                    FlatOpKind::Migrate { name, version: ver }
+                }
                 _ => {
                     let i = rng.below(ms.len() as u64) as usize;
                     ops.push(if rng.chance(3, 4) { q(i) } else { FlatOp::Query { member: ms[i].clone(), proof: b.proof_hex((i + 1) % ms.len()) } });
@@ -1216,7 +1509,15 @@ fn flat_hist_cases(a: &Args, rng: &mut Rng) -> Vec<Case> {
             ops.push(FlatOp::Exec { now, sender: sender.to_string(), kind });
         }
         ops.push(q(0));
-        v.push(Case::FlatHist { now: BASE, init, ops });
+        v.push(Case::FlatHist { members: None, now: BASE, init, ops });
+    }
+    // histories over the true root (any spelling): sweep membership after every step
+    for c in v.iter_mut() {
+        if let Case::FlatHist { init, members, .. } = c {
+            if init.root.eq_ignore_ascii_case(&root) {
+                *members = Some(Members::Short { n: 6 });
+            }
+        }
     }
     v
 }
@@ -1263,17 +1564,17 @@ fn tiered_hist_cases(a: &Args, rng: &mut Rng) -> Vec<Case> {
     inits.push(TieredInit { admins: vec!["x".into()], ..d.clone() });
     for init in inits {
         let ops = if init.stages.is_empty() { vec![] } else { vec![q(0, 0, (init.stages[0].start + init.stages[0].end) / 2)] };
-        v.push(Case::TieredHist { now: BASE, init, ops });
+        v.push(Case::TieredHist { lists: vec![], now: BASE, init, ops });
     }
     // guard-boundary probes of UpdateStageConfig, every sender role
     for sender in [CREATOR, ADMIN2, STRANGER] {
         let ex = |now: u64, kind: TieredOpKind| TieredOp::Exec { now, sender: sender.to_string(), kind };
         let us = |id: u32, start: Option<u64>, end: Option<u64>, denom: Option<&str>, limit: Option<u32>| TieredOpKind::UpdateStage { id, start, end, denom: denom.map(|x| x.to_string()), limit };
         for id in [0u32, 1, 2, 3, 4294967295] {
-            v.push(Case::TieredHist { now: BASE, init: d.clone(), ops: vec![ex(BASE + 1, us(id, None, None, None, Some(9))), q(1, 0, mid(1))] });
+            v.push(Case::TieredHist { lists: vec![], now: BASE, init: d.clone(), ops: vec![ex(BASE + 1, us(id, None, None, None, Some(9))), q(1, 0, mid(1))] });
         }
         for lim in [0u32, 1, 50, 51] {
-            v.push(Case::TieredHist { now: BASE, init: d.clone(), ops: vec![ex(BASE + 1, us(1, None, None, None, Some(lim))), q(1, 1, mid(1))] });
+            v.push(Case::TieredHist { lists: vec![], now: BASE, init: d.clone(), ops: vec![ex(BASE + 1, us(1, None, None, None, Some(lim))), q(1, 1, mid(1))] });
         }
         // move stage 1's window: overlap with 0 / touch / gap; then who is active at the old mid instants
         for (ns, ne) in [
@@ -1282,25 +1583,57 @@ fn tiered_hist_cases(a: &Args, rng: &mut Rng) -> Vec<Case> {
             (Some(stages[1].end), None), (Some(stages[1].end - 1), None), (None, Some(stages[1].start)),
             (Some(mid(1)), Some(mid(1) + 10)),
         ] {
-            v.push(Case::TieredHist {
+            v.push(Case::TieredHist { lists: vec![],
                 now: BASE, init: d.clone(),
                 ops: vec![ex(BASE + 1, us(1, ns, ne, None, None)), q(1, 0, mid(1)), q(1, 0, mid(1) + 11), q(1, 0, stages[1].start), q(0, 0, stages[1].start), q(1, 0, stages[2].start - 1), q(2, 0, stages[2].start)],
             });
         }
-        v.push(Case::TieredHist { now: BASE, init: d.clone(), ops: vec![ex(BASE + 1, us(0, None, None, Some("uother"), None)), ex(mid(0), us(0, Some(BASE), None, None, None)), q(0, 0, BASE + 5)] });
-        v.push(Case::TieredHist {
+        v.push(Case::TieredHist { lists: vec![], now: BASE, init: d.clone(), ops: vec![ex(BASE + 1, us(0, None, None, Some("uother"), None)), ex(mid(0), us(0, Some(BASE), None, None, None)), q(0, 0, BASE + 5)] });
+        v.push(Case::TieredHist { lists: vec![],
             now: BASE, init: d.clone(),
             ops: vec![ex(BASE + 1, TieredOpKind::UpdateAdmins(vec![STRANGER.into()])), ex(BASE + 2, TieredOpKind::Freeze), ex(BASE + 3, TieredOpKind::UpdateAdmins(vec![CREATOR.into()])), ex(BASE + 4, us(2, None, None, None, Some(3))), q(2, 1, mid(2))],
         });
         // the undispatched update handler, at times when it would accept (all stages ended)
         for now in [BASE + 1, mid(1), stages[2].end - 1, stages[2].end, stages[2].end + 1] {
-            v.push(Case::TieredHist {
+            v.push(Case::TieredHist { lists: vec![],
                 now: BASE, init: d.clone(),
                 ops: vec![
                     ex(now, TieredOpKind::Raw(raw_update_tiered(&[evil.clone(), evil.clone(), evil.clone()]))),
                     ex(now, TieredOpKind::Raw(json!({"update_merkle_roots": [evil.clone()]}).to_string())),
                     q(0, 0, mid(0)),
                     TieredOp::Query { now: mid(0), member: "evil".into(), proof: vec![] },
+                ],
+            });
+        }
+    }
+    // migrate grid (as for the flat contract), at instants before / inside / after the stages
+    let cur = stored_version(true);
+    let grid = migrate_grid(&cur);
+    for (gi, (name, ver)) in grid.iter().enumerate() {
+        for (si, sender) in [CREATOR, ADMIN2, STRANGER].into_iter().enumerate() {
+            let t = [BASE + 5, mid(0), mid(1) + 3, stages[2].end + 5][(gi + si) % 4];
+            let name = name.as_ref().map(|n| n.replace("whitelist-merkletree-x", "tiered-whitelist-merkletree-x"));
+            let mg = |now: u64, who: &str, name: &Option<String>, ver: &str| TieredOp::Exec { now, sender: who.to_string(), kind: TieredOpKind::Migrate { name: name.clone(), version: ver.to_string() } };
+            v.push(Case::TieredHist { lists: vec![],
+                now: BASE, init: d.clone(),
+                ops: vec![
+                    q(0, gi % 4, mid(0)), mg(t, sender, &name, ver), q(0, gi % 4, mid(0)), q(1, gi % 5, mid(1)), q(2, gi % 6, mid(2)),
+                    q(1, 0, mid(0)), q(0, 0, stages[1].start),
+                    TieredOp::Exec { now: t + 1, sender: CREATOR.into(), kind: TieredOpKind::UpdateStage { id: 2, start: None, end: Some(stages[2].end + 50), denom: None, limit: Some(3) } },
+                    mg(t + 2, CREATOR, &None, "3.0.0"), q(2, 1, mid(2)),
+                    TieredOp::Exec { now: t + 3, sender: CREATOR.into(), kind: TieredOpKind::Raw(raw_update_tiered(&[evil.clone(), evil.clone(), evil.clone()])) },
+                ],
+            });
+        }
+    }
+    for mode in [1u8, 2] {
+        let init = TieredInit { roots: roots.iter().map(|r| spell(r, mode)).collect(), ..d.clone() };
+        for ver in ["3.0.0".to_string(), cur.clone()] {
+            v.push(Case::TieredHist { lists: vec![],
+                now: BASE, init: init.clone(),
+                ops: vec![
+                    q(0, 1, mid(0)), TieredOp::Exec { now: BASE + 5, sender: CREATOR.into(), kind: TieredOpKind::Migrate { name: None, version: ver } },
+                    q(0, 1, mid(0)), q(1, 2, mid(1)), q(2, 3, mid(2)),
                 ],
             });
         }
@@ -1333,7 +1666,7 @@ fn tiered_hist_cases(a: &Args, rng: &mut Rng) -> Vec<Case> {
         for _ in 0..rng.range(8, 30) {
             now = if rng.chance(1, 3) { edge(rng) } else { now + 1 + rng.below(30) * SEC };
             let sender = if rng.chance(3, 4) { *rng.pick(&[CREATOR, ADMIN2]) } else { STRANGER };
-            let kind = match rng.below(10) {
+            let kind = match rng.below(11) {
                 0..=3 => TieredOpKind::UpdateStage {
                     id: if rng.chance(1, 8) { 3 } else { rng.below(nst as u64) as u32 },
                     start: if rng.chance(1, 2) { Some(edge(rng)) } else { None },
@@ -1344,6 +1677,10 @@ fn tiered_hist_cases(a: &Args, rng: &mut Rng) -> Vec<Case> {
                 4 => TieredOpKind::UpdateAdmins(if rng.chance(1, 5) { vec!["x".into()] } else { vec![CREATOR.into(), rng.pick(&[ADMIN2, STRANGER]).to_string()] }),
                 5 => TieredOpKind::Freeze,
                 6 => TieredOpKind::Raw(raw_update_tiered(&[evil.clone()])),
+                7 => {
+                    let (name, ver) = rng.pick(&grid).clone();
+                    TieredOpKind::Migrate { name, version: ver }
+                }
                 _ => {
                     let s = rng.below(3) as usize;
                     let i = rng.below(built[s].members.len() as u64) as usize;
@@ -1357,7 +1694,15 @@ fn tiered_hist_cases(a: &Args, rng: &mut Rng) -> Vec<Case> {
         for s in 0..3 {
             ops.push(q(s, 0, mid(s)));
         }
-        v.push(Case::TieredHist { now: BASE, init, ops });
+        v.push(Case::TieredHist { lists: vec![], now: BASE, init, ops });
+    }
+    // histories whose stored roots are the first k true roots: sweep membership after every step
+    for c in v.iter_mut() {
+        if let Case::TieredHist { init, lists, .. } = c {
+            if !init.roots.is_empty() && init.roots.len() <= 3 && init.roots.iter().zip(roots.iter()).all(|(x, y)| x.eq_ignore_ascii_case(y)) {
+                *lists = (0..init.roots.len()).map(|s| Members::Stars { n: 4 + s, salt: 40 + s as u64, dups: vec![] }).collect();
+            }
+        }
     }
     v
 }
